@@ -212,12 +212,12 @@ def urlAfterHostname (url hostname : Str) : Str :=
 inductive PElem where
   | lit (c : Char)
   | star
-  | sep          -- `(?:[^\w\d\._%-])`; as the last element `(?:[^\w\d\._%-]|$)`
+  | sep          -- `(?:[^\w\d\._%\x80-\xff-])` (no byte of a non-ASCII character); as the last element `(?:…|$)`
   | never        -- a regex start-anchor `^` that ended up in the middle of the text (see `elems`)
 deriving Repr, DecidableEq
 
 def isSepChar (c : Char) : Bool :=
-  !(c.isAlphanum || c == '_' || c == '-' || c == '.' || c == '%')
+  c.val < 128 && !(c.isAlphanum || c == '_' || c == '-' || c == '.' || c == '%')
 
 def elemOf (c : Char) : PElem := if c == '*' then .star else if c == '^' then .sep else .lit c
 
